@@ -39,7 +39,8 @@ const (
 	l2SoftFloor    = 6 * time.Second
 	l2SoftFactor   = 20
 	l2ChunkMax     = 300
-	l2ChunkHeavy   = 8
+	l2ChunkHeavy   = 24
+	l2ChunkModulus = 6
 	l2SlowParallel = 32
 )
 
@@ -658,13 +659,24 @@ func RunLayer2(r *core.Run) {
 	// out the 120 s watchdog should be met early.
 	type chunk struct{ a, b int }
 	var chunks []chunk
+	// class of a case for chunking: 2 = replaces a modulus of a heavy target, 1 = other case of a heavy target, 0 = rest
+	caseClass := func(k int) int {
+		t := targets[cases[k].tgt]
+		if !t.heavy {
+			return 0
+		}
+		for _, rp := range cases[k].repl {
+			if t.comp(rp[0]).kind == kModulus {
+				return 2
+			}
+		}
+		return 1
+	}
+	sizeOf := map[int]int{0: l2ChunkMax, 1: l2ChunkHeavy, 2: l2ChunkModulus}
 	for a := 0; a < len(cases); {
 		b := a
-		max := l2ChunkMax
-		if targets[cases[a].tgt].heavy {
-			max = l2ChunkHeavy
-		}
-		for b+1 < len(cases) && cases[b+1].tgt == cases[a].tgt && b+1-a < max {
+		cl := caseClass(a)
+		for b+1 < len(cases) && cases[b+1].tgt == cases[a].tgt && caseClass(b+1) == cl && b+1-a < sizeOf[cl] {
 			b++
 		}
 		chunks = append(chunks, chunk{a, b})
@@ -683,20 +695,7 @@ func RunLayer2(r *core.Run) {
 	}
 	// scheduling only: chunks that replace a modulus of a heavy target first (that is where a call can fall into an
 	// unbounded computation, which then has to wait out the 120 s watchdog), then the other heavy chunks, then the rest
-	prio := func(c chunk) int {
-		t := targets[cases[c.a].tgt]
-		if !t.heavy {
-			return 0
-		}
-		for k := c.a; k <= c.b; k++ {
-			for _, rp := range cases[k].repl {
-				if t.comp(rp[0]).kind == kModulus {
-					return 2
-				}
-			}
-		}
-		return 1
-	}
+	prio := func(c chunk) int { return caseClass(c.a) }
 	sort.SliceStable(chunks, func(i, j int) bool { return prio(chunks[i]) > prio(chunks[j]) })
 	tStart := time.Now()
 	// slow pool: cases that exceeded the soft limit are re-run alone under the hard watchdog
